@@ -65,7 +65,7 @@ def stepN (fo : FloatOps) (fuel : Nat) (s : StN) (op : Json) : E (StN × Json) :
     | .error _ => pure (s, Json.str "REFUSED")
   match name with
   | "construct" =>
-    let axes ← getList getBinning (← field op "axes")
+    let axes ← getList (getBinningWith fo) (← field op "axes")
     let rows ← getRowsN (← field op "rows")
     let ws ← getOpt (getList getRat) (fieldD op "weights")
     let wk ← getOpt getDType (fieldD op "wkind")
@@ -75,12 +75,12 @@ def stepN (fo : FloatOps) (fuel : Nat) (s : StN) (op : Json) : E (StN × Json) :
       let h ← HN.construct fo axes rows ws (wk.getD .i64) (getBoolD op "dropna" true) names
       pure (s.set out h, Json.str "ok")
   | "empty" =>
-    let axes ← getList getBinning (← field op "axes")
+    let axes ← getList (getBinningWith fo) (← field op "axes")
     let dt ← getOpt getDType (fieldD op "dtype")
     let names ← getNames (fieldD op "names")
     pure (s.set (← reg "out") (HN.empty fo axes (getBoolD op "keep" true) dt names), Json.str "ok")
   | "of_arrays" =>
-    let axes ← getList getBinning (← field op "axes")
+    let axes ← getList (getBinningWith fo) (← field op "axes")
     let f ← getList getRat (← field op "freq")
     let e ← getOpt (getList getRat) (fieldD op "err2")
     let m ← getNRat (fieldD op "missed")
